@@ -81,8 +81,28 @@ func drain(it gojq.Iter, o *Obs) {
 // same program text compiled with fq's whole prelude in scope.
 
 type fqEngine struct {
-	s     *fqrun.Session
-	evals int
+	s      *fqrun.Session
+	evals  int
+	panics int
+	// step brackets every single interpreter call for the livelock watchdog
+	step func(what, prog string) func()
+}
+
+func (e *fqEngine) begin(what, prog string) func() {
+	if e.step == nil {
+		return func() {}
+	}
+	return e.step(what, prog)
+}
+
+// panicked: a Go panic unwound through the interpreter. It is replaced now and
+// then rather than every time (a new interpreter costs ~50 ms; programs that panic
+// come in runs).
+func (e *fqEngine) panicked() {
+	e.panics++
+	if e.panics%16 == 0 {
+		e.reset()
+	}
 }
 
 func newFQ() *fqEngine {
@@ -116,6 +136,7 @@ func (e *fqEngine) tick() {
 // compile failure is returned separately (fq reports it instead of an iterator).
 func (e *fqEngine) run(text string, input any) (o Obs, compileErr error) {
 	e.tick()
+	defer e.begin("one program", text)()
 	pv, stack := core.Protect(func() {
 		it, err := e.s.I.Eval(e.s.Ctx, clone(input), text, interp.EvalOpts{})
 		if err != nil {
@@ -128,7 +149,7 @@ func (e *fqEngine) run(text string, input any) (o Obs, compileErr error) {
 		o.Err = true
 		o.Panic = true
 		o.Msg = "GO PANIC: " + core.PanicString(pv) + " @ " + core.PanicSite(stack)
-		e.reset() // do not trust an interpreter a panic unwound through
+		e.panicked()
 	}
 	return o, compileErr
 }
@@ -160,7 +181,11 @@ func batchText(progs []string) string {
 
 // runBatch returns obs[input][program].
 func (e *fqEngine) runBatch(progs []string, inputs []any) ([][]Obs, error) {
+	if len(progs) == 0 {
+		return make([][]Obs, len(inputs)), nil
+	}
 	e.tick()
+	defer e.begin(fmt.Sprintf("a batch of %d programs starting with", len(progs)), progs[0])()
 	in := make([]any, len(inputs))
 	for i, v := range inputs {
 		in[i] = clone(v)
@@ -227,7 +252,7 @@ func (e *fqEngine) runBatchRobust(progs []string, inputs []any) (obs [][]Obs, un
 				}
 				return
 			} else if _, isPanic := fqrun.IsPanic(err); isPanic {
-				e.reset()
+				e.panicked()
 			}
 			unbatched[lo] = true
 			for i, in := range inputs {
@@ -243,7 +268,7 @@ func (e *fqEngine) runBatchRobust(progs []string, inputs []any) (obs [][]Obs, un
 			return
 		}
 		if _, isPanic := fqrun.IsPanic(err); isPanic {
-			e.reset()
+			e.panicked()
 		}
 		mid := (lo + hi) / 2
 		rec(lo, mid)
